@@ -277,6 +277,11 @@ func scWellFormed(r *rand.Rand, size int) []scItem {
 		} else if i == nobj-3 && r.Intn(2) == 0 {
 			it.N = 12
 		}
+		for _, have := range g.objects { // one object per operation name
+			if have == it.N {
+				it.N = tid()
+			}
+		}
 		for _, in := range g.ifaces {
 			if r.Intn(2) != 0 {
 				continue
@@ -1192,7 +1197,9 @@ func c13Gen(r *rand.Rand, tier string) []Case {
 		if len(w) >= 4 {
 			tags = append(tags, "nontrivial")
 		}
-		out = append(out, scCase(fmt.Sprintf("w%d", i), []sx.S{scDocSx("ok", arr)}, tags, scDocText(arr)))
+		wf := scCase(fmt.Sprintf("w%d", i), []sx.S{scDocSx("ok", arr)}, tags, scDocText(arr))
+		wf.Input = append([]sx.S{"wfdocs"}, sx.List(wf.Input)[1:]...) // built by construction to obey every rule
+		out = append(out, wf)
 		order := r.Perm(scNumMuts())
 		made := 0
 		for _, m := range order {
